@@ -1,4 +1,6 @@
 import WtfModel.Model.CacheLayer
+import WtfModel.Model.KeyJson
+import WtfModel.Gen.KeyJson
 import WtfModel.Gen.CacheKey
 import WtfModel.Gen.Constants
 import WtfModel.Gen.Lru
@@ -211,12 +213,69 @@ def searchLine (d : DS) (monitored : Bool) (q : String) (oracle : String) (o : O
       s!"{a} {dh} {dm} {s'.lru.entries.length} {s'.lru.hits} {s'.lru.misses} {s'.lru.evictions}")
   | _, _ => (d, "bad-op")
 
+/-! ### The text of the key (domain `keyjson`): `Wtf.KeyJson.keyText` on a request given at the level of
+  cache.SearchOptions (what generateCacheKey receives).
+
+    keytext <query hex> F=<bits>:<text hex>,... <Field=value ...>     F=- when the request has no float
+    coerce <hex>
+
+  The float formatter is an ORACLE: the F token lists, for every float of the request, the text encoding/json prints for
+  it.  Map entries come in any order; `sortEntries` puts them in the order of their raw keys.  Output of keytext: the text
+  in hex, or `fallback` when json.Marshal fails (NaN / ±Inf: the `%#v` text, not modelled), followed by ` 1` (on the Go side:
+  "prefix ++ hex (sha256 text) is the key generateCacheKey returns"). -/
+
+def keyFieldTypes : List (String × String) := Gen.CacheKey.keyFields.map (fun kf => (kf.1, kf.2.1))
+
+/-- generateCacheKey itself: every key field is read from the like-named field of its argument -/
+def shK : Shape := ⟨Gen.CacheKey.keyFields, Gen.CacheKey.keyFields.map (fun kf => (kf.1, kf.1))⟩
+
+def parseKeyOpts (toks : List String) : Option Opts :=
+  toks.foldl (fun acc t => match acc with
+    | none => none
+    | some o =>
+      match t.splitOn "=" with
+      | [f, v] =>
+        match keyFieldTypes.lookup f with
+        | some ty => (parseVal ty v).map (fun x =>
+            match x with
+            | .boosts (some m) => o.set f (.boosts (some (KeyJson.sortEntries m)))
+            | x => o.set f x)
+        | none => none
+      | _ => none) (some (zeroOpts keyFieldTypes))
+
+def parseFloatOracle (t : String) : Option (List (Nat × Bytes)) :=
+  if t == "F=-" then some []
+  else if t.startsWith "F=" then
+    ((t.drop 2).toString.splitOn ",").mapM (fun p => match p.splitOn ":" with
+      | [b, x] => match hexNat b, Bytes.ofHex x with
+        | some n, some bs => some (n, bs)
+        | _, _ => none
+      | _ => none)
+  else none
+
+def keyTextLine (q : String) (f : String) (opts : List String) : String :=
+  match Bytes.ofHex q, parseFloatOracle f, parseKeyOpts opts with
+  | some qb, some tbl, some o =>
+    let E : Env Nat String KeyData :=
+      { answer := fun _ _ _ => "-", isEmpty := fun _ => true, normQ := normQ, utf8 := KeyJson.coerce, enc := id }
+    let fmt : Nat → Bytes := fun b => (tbl.lookup b).getD []
+    match keyOf E shK qb o with
+    | .hashed nq ko =>
+      Bytes.toHex (KeyJson.keyText fmt (fun _ _ => []) Gen.KeyJson.queryName Gen.KeyJson.optionsName (.hashed nq ko)) ++ " 1"
+    | _ => "fallback 1"
+  | _, _, _ => "bad-op"
+
 def stepLine (d0 : DS) (l : String) : DS × String :=
   let d := { d0 with n := d0.n + 1 }
   let E := env "-"
   match words l with
   | "cmd" :: _ => (d, "ok")
   | ["new", _] => ({ d with s := init0, live := true, reg := [] }, "ok")
+  | "keytext" :: q :: f :: opts => (d, keyTextLine q f opts)
+  | ["coerce", h] =>
+    match Bytes.ofHex h with
+    | some b => (d, Bytes.toHex (KeyJson.coerce b) ++ (if jsonUtf8 b == KeyJson.coerce b then " 1" else " 0"))
+    | none => (d, "bad-op")
   | toks =>
     if !d.live then (d, "bad-op") else
     match toks with
